@@ -241,11 +241,24 @@ pub fn gen_scenario(seed: u64, large: u8) -> Scenario {
         if large == 0 && matches!(op.name, "aggregates" | "geodesic_aggregates" | "par_iter_multipolygon" | "par_iter_multipoint_mls") && rng.chance(1, 2) {
             fam = "mantissa";
         }
+        // stitching is quadratic in the boundary lines but cheap: a third of the time give it
+        // outlines of several hundred to a few thousand edges
+        let big_stitch = large == 0 && op.name == "stitch_triangulation" && rng.chance(1, 3);
+        if big_stitch {
+            fam = *rng.pick(&["lattice", "circles", "tiles"]);
+        }
         // the spatial-index driven algorithms named in the property: point clouds half of the time
         if large == 0 && matches!(op.name, "concave_hull" | "k_nearest_concave_hull" | "outliers") && rng.chance(1, 2) {
             fam = "cloud";
         }
         let mut spec = inputs::gen_spec(&mut rng, fam, large);
+        if big_stitch {
+            spec.size = match fam {
+                "lattice" => 12 + rng.below(8),   // 144..361 squares, 576..1444 boundary edges
+                "circles" => 600 + rng.below(1200),
+                _ => 14 + rng.below(10),          // tilings: the outline has 4k edges
+            };
+        }
         // thousands of full-mantissa members are for the aggregate / par-iter operations only
         if fam == "mantissa" && !matches!(op.name, "aggregates" | "geodesic_aggregates" | "par_iter_multipolygon" | "par_iter_multipoint_mls") {
             // (disjoint small triangles are cheap to union: many-input unary unions stay in)
